@@ -38,6 +38,14 @@ CLAIMS["C16"] = dict(
     text="Deductive proof: bounding-box union/intersection are component-wise min/max with CRS check and obey the lattice laws (lemma); pixel_translation returns the exact shift for any invertible base grid and rejects other CRS / non-unit linear part; bounding_box_in_pixel_domain gives the integer pixel rectangle and rejects sub-pixel offsets beyond tol; union/intersection of 1-3 GeoBoxes on a common grid are the bounding/shared pixel rectangle (empty -> zero-size GeoBox) placed at base*T(corner); overlap_roi indexes exactly the shared pixels within self; snap_to moves by <= 1/2 pixel onto the other grid; translate_pix.",
     note="polynomial identities over the six affine coefficients (NRA); numpy.isclose thresholds taken from the code; GeoBox.enclosing (shapely/pyproj projection of the region) is NOT decided; commutativity/associativity of GeoBox |,& follow from the min/max form of the pixel rectangles (not a separate machine-checked lemma)",
     technique=TECH, design_ref="DESIGN.md §2 C16")
+CLAIMS["C02"] = dict(
+    text="Deductive proof (polynomial identities over the six affine coefficients, any invertible affine: mirrored, non-square, rotated, sheared): pix2wld/wld2pix are mutual inverses; bounding box contains all four corner images and is tight; footprint ring = the four corner images in ring order; every view-changing operation (indexing/cropping incl. negative/open-ended/int forms, pad, pad_wh, crop/expand, translate_pix, flipx/flipy, left/right/top/bottom, zoom_out, zoom_to(shape), scaled_down_geobox, rotate about the centre, center_pixel, __mul__/__rmul__) returns a GeoBox with the same CRS, the prescribed shape and affine == old.affine * M for the documented pixel-space map M; covering where documented.",
+    note="cos/sin are uninterpreted with cos^2+sin^2=1; GCP GeoBoxes, coordinates (numpy arange), buffered/resolution for rotated grids (decompose_rws), zoom_to(resolution=) beyond its from_bbox call, and Geometry/BoundingBox crop regions (pyproj/shapely) are NOT decided; geom.polygon is an assumed thin wrapper",
+    technique=TECH, design_ref="DESIGN.md §2 C02")
+CLAIMS["C18"] = dict(
+    text="Rely/guarantee proof of DelayedS3Writer._ensure_init/__call__/finalise over the real code, both in-process (shared object + process lock) and cluster (Variable + distributed Lock) branches: with arbitrary interference by any number of other workers at every shared read and at lock acquisition, create_multipart_upload is issued only under the lock and only when no upload exists (lock invariant re-established at release), initiate()'s precondition holds, every part goes out under the one id, no assert fails. File sink: each accessor returns the value configured under its own keyword else its default (all 16 keyword combinations, symbolic values), maxima above minima.",
+    note="assumes sequential consistency / atomic attribute access (GIL) and a linearisable Variable/Lock; Variable.get time-outs are faults outside the quantifier; liveness not addressed; MPUFileSink.__call__/finalise (file-system effects) only by a BOUNDED native check on a scratch directory; abstract counterexamples are concretised by a native turn-based scheduler enumerating 2-worker schedules of the real code",
+    technique="contract-based deductive verification with rely/guarantee (lock invariant, havoc at shared reads); z3; replay through a native schedule enumerator", design_ref="DESIGN.md §2 C18")
 NA = {
     "C09": "xarray object-model behaviour (coords/attrs/encoding propagation); no contract within reach can state it - see DESIGN.md C09",
     "C13": "equality of GDAL warps (whole vs chunked) and dask scheduling; no contract within reach - see DESIGN.md C13",
